@@ -214,6 +214,11 @@ func (l *sizedLRU) do(a act) interface{} {
 	case "qstats":
 		ln, size, capa, ev := l.c.Stats()
 		return tr.E{"len": specNum(ln), "size": specNum(size), "cap": specNum(capa), "ev": specNum(ev)}
+	case "qitems", "qkeys": // the listings are methods of their own too (rendered at once)
+		if a.Op == "qitems" {
+			return listing(&lazyObs{items: l.c.Items(), koff: l.koff}, true)
+		}
+		return listing(&lazyObs{keys: l.c.Keys(), koff: l.koff}, false)
 	}
 	tr.Fatal("unknown op %q", a.Op)
 	return nil
@@ -237,6 +242,27 @@ type lazyObs struct {
 	keys   []interface{}
 	koff   int
 	st, gt [4]int64 // Stats() / Length, Size, Capacity, Evictions
+}
+
+// listing is the reply of the listing getters: Keys() alone, or Items() as (keys, values)
+func listing(o *lazyObs, items bool) tr.E {
+	if !items {
+		ks := make([]int, 0, len(o.keys))
+		for _, k := range o.keys {
+			ks = append(ks, unKey(k, o.koff))
+		}
+		return tr.E{"keys": ks}
+	}
+	n := len(o.items) + len(o.titems)
+	ks, vals := make([]int, 0, n), make([]int, 0, n)
+	for i := 0; i < n; i++ {
+		if o.items != nil {
+			ks, vals = append(ks, unKey(o.items[i].Key, o.koff)), append(vals, idOf(o.items[i].Value))
+		} else {
+			ks, vals = append(ks, unKey(o.titems[i].Key, o.koff)), append(vals, idOf(o.titems[i].Value))
+		}
+	}
+	return tr.E{"keys": ks, "vals": vals}
 }
 
 func (o *lazyObs) render() tr.E {
@@ -352,6 +378,11 @@ func (l *tinyLRU) do(a act) interface{} {
 	case "qstats":
 		ln, size, capa, ev := l.c.Stats()
 		return tr.E{"len": specNum(ln), "size": specNum(size), "cap": specNum(capa), "ev": specNum(ev)}
+	case "qitems", "qkeys": // the listings are methods of their own too (rendered at once)
+		if a.Op == "qitems" {
+			return listing(&lazyObs{titems: l.c.Items(), koff: l.koff}, true)
+		}
+		return listing(&lazyObs{keys: l.c.Keys(), koff: l.koff}, false)
 	}
 	tr.Fatal("unknown op %q", a.Op)
 	return nil
@@ -707,10 +738,24 @@ func runRaces(w *tr.W, rng *rand.Rand, rounds, keep, bulk int) (int, int) {
 				}
 			}
 			threads = 3
-			progs = [][]act{wr, nil, nil}
 			q := []string{"qsize", "qev", "qstats", "qlen", "qsize"}
+			nq := 6
+			if rng.Intn(3) == 0 {
+				// a caller that updates present entries in place and touches others, against callers
+				// that list the cache: every listing must be one the ideal cache showed at some instant
+				wr = nil
+				for i := 1; i <= 8+rng.Intn(8); i++ {
+					if rng.Intn(4) == 0 {
+						wr = append(wr, act{Op: "get", K: 1 + rng.Intn(capa)})
+					} else {
+						wr = append(wr, act{Op: "set", K: 1 + rng.Intn(capa), V: 900 + i, S: 1})
+					}
+				}
+				q, nq = []string{"qitems", "qitems", "qkeys"}, 2
+			}
+			progs = [][]act{wr, nil, nil}
 			for t := 1; t < 3; t++ {
-				n := 6 + rng.Intn(10)
+				n := nq + rng.Intn(nq+4)
 				for i := 0; i < n; i++ {
 					progs[t] = append(progs[t], act{Op: q[rng.Intn(len(q))]})
 				}
@@ -853,7 +898,7 @@ func runWide(w *tr.W, rng *rand.Rand, variant string, shards, capa, nops int) {
 		switch a.Op {
 		case "setx", "setnx", "clear", "setcap", "mut":
 			a.Op = "set"
-		case "qlen", "qsize", "qcap", "qev", "qstats": // the facades have no getters
+		case "qlen", "qsize", "qcap", "qev", "qstats", "qitems", "qkeys": // the facades have no getters
 			a.Op = "peek"
 		}
 		if !sized {
